@@ -263,13 +263,19 @@ func BlockOnInteractiveRequests(caller ...string) {
 // SetReadOnly can put the server in a read-only mode.
 func SetReadOnly(on bool) {
 	readonly = on
-	fullwrite = !on
+	if on {
+		// The two modes exclude each other, but leaving read-only mode must not
+		// turn on full-write mode (which opens committed versions to mutation).
+		fullwrite = false
+	}
 }
 
 // SetFullWrite allows mutations on any version.
 func SetFullWrite(on bool) {
 	fullwrite = on
-	readonly = !on
+	if on {
+		readonly = false
+	}
 }
 
 // SetMonitor can put server in monitor mode (writes load stats to debug if activity).
